@@ -538,17 +538,18 @@ def validateFrom (I : Impl) (g : Graph) (vis : List Nat) (root : Nat) : Out × L
 /-- `root.__xpm__.validate()` on fresh objects -/
 def validateGraph (I : Impl) (g : Graph) (root : Nat) : Out := (validateFrom I g [] root).1
 
+def visits (l : List Item) : List Nat := l.filterMap fun | .visit m => some m | .fail => none
+def hasFail (l : List Item) : Bool := l.contains .fail
+
 /-- a required argument without generator has no value at node `n` -/
-def nodeMissing (g : Graph) (n : Nat) : Bool := (nodeItems false g n).contains .fail
+def nodeMissing (g : Graph) (n : Nat) : Bool := hasFail (nodeItems false g n)
 
 /-- edges followed by the validation walk of variant `I` -/
-def succs (I : Impl) (g : Graph) (n : Nat) : List Nat :=
-  (nodeItems I.deepValidate g n).filterMap fun | .visit m => some m | .fail => none
+def succs (I : Impl) (g : Graph) (n : Nat) : List Nat := visits (nodeItems I.deepValidate g n)
 
 /-- every edge of the parameter graph: configurations in values (also inside lists and dicts),
     pre-tasks, init tasks -/
-def allSuccs (g : Graph) (n : Nat) : List Nat :=
-  (nodeItems true g n).filterMap fun | .visit m => some m | .fail => none
+def allSuccs (g : Graph) (n : Nat) : List Nat := visits (nodeItems true g n)
 
 inductive Reach (S : Nat → List Nat) (a : Nat) : Nat → Prop
   | refl : Reach S a a
